@@ -464,8 +464,38 @@ func checkNodeKindTests(p *Prog, l *Ledger, rule string) {
 	}
 	ev := p.Interp().Eval
 	var sites []string
+	// a helper split off from an allowed function (all of its callers are that function, or helpers of it) shares the allowance
+	var owner func(fn *ssa.Function, depth int) string
+	owner = func(fn *ssa.Function, depth int) string {
+		fk := p.FuncKey(fn)
+		if _, ok := allowed[fk]; ok {
+			return fk
+		}
+		if depth > 3 {
+			return ""
+		}
+		css := p.CallSites(fn)
+		if len(css) == 0 {
+			return ""
+		}
+		o := ""
+		for _, cs := range css {
+			if cs.Common().StaticCallee() != fn {
+				return ""
+			}
+			c := owner(cs.Parent(), depth+1)
+			if c == "" || (o != "" && c != o) {
+				return ""
+			}
+			o = c
+		}
+		return o
+	}
 	for _, fn := range p.ModuleFuncs() {
 		fk := p.FuncKey(fn)
+		if o := owner(fn, 0); o != "" && o != fk {
+			allowed[fk] = allowed[o] + " (in a helper of " + o + ")"
+		}
 		instrsOf(fn, func(in ssa.Instruction) {
 			ta, ok := in.(*ssa.TypeAssert)
 			if !ok {
